@@ -3,6 +3,7 @@
 package main
 
 import (
+	"fmt"
 	"bytes"
 	"encoding/binary"
 	"io"
@@ -33,6 +34,9 @@ type FetchResp struct {
 	// StallAt > 0: the first StallAt bytes of the response frame are written, the rest after StallFor (a slow link)
 	StallAt  int
 	StallFor time.Duration
+	// KeepOpen (with Cut / CutFn): the frame stops after the cut but the connection stays open and silent — a host that
+	// vanished without FIN / RST
+	KeepOpen bool
 	// Chunk > 0: the response frame reaches the client in pieces of Chunk bytes (net.Pipe hands every Write to the
 	// reader as its own Read: the client's bufio.Reader is refilled at exactly these boundaries — inside the size
 	// prefix, inside fixed-width fields, inside varints)
@@ -46,6 +50,9 @@ type Broker struct {
 	OnOffset   func(conn int, ts int64) (int64, int16) // ts -2 = first, -1 = last
 	// OnOffsetHang != nil and true: this ListOffsets request is never answered (the connection stays open)
 	OnOffsetHang func(conn int) bool
+	// Cluster: the partition's leader is looked up (OnMetadata) for every partition request, and a connection dialled to
+	// another broker's address gets NotLeaderForPartition (6)
+	Cluster bool
 	OnMetadata func(conn int) (leader int32, partErr int16)
 	OnConn     func(conn int) bool // false: refuse (close immediately)
 
@@ -61,14 +68,31 @@ func (b *Broker) Conns() (opened, closed int) {
 	return b.nconn, b.nclosed
 }
 
-func (b *Broker) Dial() (net.Conn, int) {
+func (b *Broker) Dial() (net.Conn, int) { return b.DialAddr(LeaderAddr(1)) }
+
+// LeaderAddr: the cluster behind the fake is the brokers 1, 2, 3, … at fake:9092, fake:9093, …; broker 1 is the
+// bootstrap broker every scenario lists in ReaderConfig.Brokers.  Metadata is answered on every address; a partition
+// request (ListOffsets, Fetch) only by the broker that leads the partition at that moment (Cluster set), the others
+// answer NotLeaderForPartition like a real broker.
+func LeaderAddr(id int32) string { return fmt.Sprintf("fake:%d", 9092+int(id)-1) }
+
+// DialAddr: a client connection to the broker listening on addr.
+func (b *Broker) DialAddr(addr string) (net.Conn, int) {
 	cli, srv := net.Pipe()
 	b.mu.Lock()
 	b.nconn++
 	id := b.nconn
 	b.mu.Unlock()
-	go b.serve(srv, id)
+	go b.serve(srv, id, addr)
 	return cli, id
+}
+
+func (b *Broker) notLeader(id int, addr string) bool {
+	if !b.Cluster || b.OnMetadata == nil {
+		return false
+	}
+	leader, _ := b.OnMetadata(id)
+	return addr != LeaderAddr(leader)
 }
 
 type rd struct {
@@ -92,7 +116,7 @@ func (r *rd) str() string {
 
 func wstr(b *bytes.Buffer, s string) { be16(b, int16(len(s))); b.WriteString(s) }
 
-func (b *Broker) serve(c net.Conn, id int) {
+func (b *Broker) serve(c net.Conn, id int, addr string) {
 	defer c.Close()
 	defer func() {
 		// the connection is over: the client hung up (the broker's read or write failed) or the broker cut it off.  A
@@ -121,6 +145,7 @@ func (b *Broker) serve(c net.Conn, id int) {
 		cut := -1
 		stallAt, stallFor := 0, time.Duration(0)
 		chunk := 0
+		keepOpen := false
 		switch key {
 		case 18: // ApiVersions v0
 			be16(&body, 0)
@@ -138,7 +163,7 @@ func (b *Broker) serve(c net.Conn, id int) {
 			be32(&body, 1) // brokers
 			be32(&body, leader)
 			wstr(&body, "fake")
-			be32(&body, 9092)
+			be32(&body, int32(9092+int(leader)-1))
 			be16(&body, -1)
 			be32(&body, leader) // controller
 			be32(&body, 1)      // topics
@@ -167,6 +192,9 @@ func (b *Broker) serve(c net.Conn, id int) {
 			off, e := int64(0), int16(0)
 			if b.OnOffset != nil {
 				off, e = b.OnOffset(id, ts)
+			}
+			if b.notLeader(id, addr) {
+				off, e = -1, 6
 			}
 			be32(&body, 1)
 			wstr(&body, b.Topic)
@@ -202,7 +230,12 @@ func (b *Broker) serve(c net.Conn, id int) {
 				_ = r.i64() // log start
 			}
 			q.MaxBytes = r.i32()
-			p := b.OnFetch(q)
+			var p FetchResp
+			if b.notLeader(id, addr) {
+				p = FetchResp{Err: 6, Hwm: -1, Cut: -1}
+			} else {
+				p = b.OnFetch(q)
+			}
 			if p.Hang {
 				// swallow further input until the client gives up
 				io.Copy(io.Discard, c)
@@ -236,6 +269,7 @@ func (b *Broker) serve(c net.Conn, id int) {
 			}
 			stallAt, stallFor = p.StallAt, p.StallFor
 			chunk = p.Chunk
+			keepOpen = p.KeepOpen
 		default:
 			return
 		}
@@ -245,6 +279,9 @@ func (b *Broker) serve(c net.Conn, id int) {
 		w := out.Bytes()
 		if cut >= 0 && 4+cut < len(w) {
 			c.Write(w[:4+cut])
+			if keepOpen {
+				io.Copy(io.Discard, c) // until the client gives the connection up
+			}
 			return
 		}
 		if stallAt > 0 && 4+stallAt < len(w) {
